@@ -279,6 +279,9 @@ using el_b = fcppt::record::element<lab_b, short>;
 using el_c = fcppt::record::element<lab_c, int>;
 using rec = fcppt::record::object<el_a, el_b, el_c>;
 using rec_perm = fcppt::record::object<el_c, el_a, el_b>;
+// the labels permuted while the SEQUENCE OF ELEMENT TYPES stays (int, short, int): a comparison that
+// goes by position instead of by label cannot tell from the types that it is wrong
+using rec_swap = fcppt::record::object<el_c, el_b, el_a>;
 RegLaws<rec, Order::none, false> const r_record{{
     .name = "record<a:int,b:short,c:int>",
     .build =
@@ -303,7 +306,9 @@ RegLaws<rec, Order::none, false> const r_record{{
     .equalities = {
         // documented: records with equivalent element sets in another order compare by label
         {"operator==(record, permuted record)", [](rec const &a, rec const &b) { return a == fcppt::record::permute<rec_perm>(rec{b}); }},
-        {"!operator!=(permuted record, record)", [](rec const &a, rec const &b) { return !(fcppt::record::permute<rec_perm>(rec{a}) != b); }}}}};
+        {"!operator!=(permuted record, record)", [](rec const &a, rec const &b) { return !(fcppt::record::permute<rec_perm>(rec{a}) != b); }},
+        {"operator==(record, record with labels a and c swapped in the type)", [](rec const &a, rec const &b) { return a == fcppt::record::permute<rec_swap>(rec{b}); }},
+        {"!operator!=(record with labels a and c swapped in the type, record)", [](rec const &a, rec const &b) { return !(fcppt::record::permute<rec_swap>(rec{a}) != b); }}}}};
 
 // ---------------------------------------------------------------- strong_typedef<int>
 FCPPT_MAKE_STRONG_TYPEDEF(int, sint);
